@@ -328,6 +328,7 @@ class FirstExc(Obj):
     def __init__(self, ctx):
         Obj.__init__(self, name="first_exception")
         ctx.store[(self.oid, "has")] = z3.BoolVal(False)
+        ctx.store[(self.oid, "first_ann")] = z3.IntVal(-1)  # ghost: node index the first captured error names
 
     def has(self, ctx):
         return ctx.store[(self.oid, "has")]
@@ -338,8 +339,11 @@ class FirstExc(Obj):
             I.call_value(ctx.rv(args[0]), [], n)
         except ThrowEx as t:
             ctx.uncaught -= 1
+            ann = t.exc.tags.get("annotated_index")
+            if ann is None:
+                ann = z3.IntVal(-1)
+            ctx.write(Loc((self.oid, "first_ann")), z3.If(self.has(ctx), ctx.store[(self.oid, "first_ann")], ann))
             ctx.write(Loc((self.oid, "has")), z3.BoolVal(True))
-            self.last = t.exc
         return VOID
 
     def m_has_exception(self, I, args, n):
@@ -349,7 +353,8 @@ class FirstExc(Obj):
         ctx = I.ctx
         if ctx.decide(self.has(ctx), "rethrow_if_any"):
             ctx.uncaught += 1
-            raise ThrowEx(ExcVal("unknown", origin="FirstExceptionRecorder", tags={"recorded": True}))
+            raise ThrowEx(ExcVal("unknown", origin="FirstExceptionRecorder",
+                                 tags={"recorded": True, "annotated_index": ctx.store[(self.oid, "first_ann")]}))
         return VOID
 
 
